@@ -38,7 +38,12 @@ func c15Hooks() limHooks {
 				return
 			}
 			a := li.aux.(*c15Aux)
-			a.rtts = append(a.rtts, s.rtt)
+			noRTT := s.rtt <= 0 // a drop without an RTT: counts as a sample, says nothing about latency
+			if noRTT {
+				a.rtts = append(a.rtts, -1)
+			} else {
+				a.rtts = append(a.rtts, s.rtt)
+			}
 			if len(a.rtts) > 40 {
 				a.rtts = a.rtts[len(a.rtts)-40:]
 			}
@@ -47,7 +52,9 @@ func c15Hooks() limHooks {
 					a.age[v]++
 				}
 			}
-			a.age[s.rtt] = 0
+			if !noRTT {
+				a.age[s.rtt] = 0
+			}
 			n := len(a.rtts)
 			b := li.rttNoLoad()
 			if before > a.maxEst {
@@ -69,7 +76,7 @@ func c15Hooks() limHooks {
 				return
 			}
 			a.unsetRun = 0
-			if b > s.rtt {
+			if !noRTT && b > s.rtt {
 				t.Fail(cls+"/baseline-above-sample", "baseline %d exceeds the RTT %d of the sample just processed", b, s.rtt)
 				return
 			}
@@ -86,6 +93,9 @@ func c15Hooks() limHooks {
 			ok := false
 			min := int64(1) << 62
 			for k := n - 1; k >= 0 && n-k <= B; k-- {
+				if a.rtts[k] < 0 {
+					continue // no RTT in that sample
+				}
 				if a.rtts[k] < min {
 					min = a.rtts[k]
 				}
